@@ -20,6 +20,10 @@
 (*    sequence (followed by its successors in the list: state leaking into *)
 (*    the next exchange) per (stream mode x limit unset / one below the    *)
 (*    body length / exactly the body length).                              *)
+(*  set L (limit): MaxResponseBodySize 1000 / 3000 / 5000, a legal         *)
+(*    response just under or at the limit, then an over-limit response     *)
+(*    into the same Response object on the same connection, then a probe.  *)
+(*  set K: the minimal case of every known finding.                        *)
 (* Mode "cuts": small scripts, each followed by a probe exchange on the    *)
 (*    (possibly) reused connection; the driver multiplies them by          *)
 (*    fragmentations of the first response (cutX = 1): every 2-way cut,    *)
@@ -49,29 +53,38 @@ ReqHeaderSets == <<
 \* the same without a Content-Type, for bodies whose content type the API sets
 ReqHeaderSetNoCT == <<H("User-Agent", "ua/1"), H("accept-language", "en")>>
 
-NoBody == [kind |-> "none", n |-> 0, i |-> 0, declared |-> 0, step |-> 0, kvs |-> << >>, files |-> << >>]
+\* rd: how the io.Reader of a streamed body / of a file part hands its bytes out (driver: patReader) -- full reads, a
+\* short FIRST read of 1 / 8 / 511 bytes with more to follow, one byte per call, (n > 0, io.EOF) on the last read
+RdModes == <<"full", "first1", "first8", "first511", "bytewise", "eofLast">>
+NoBody == [kind |-> "none", n |-> 0, i |-> 0, declared |-> 0, step |-> 0, rd |-> "full", kvs |-> << >>, files |-> << >>]
 BytesBody(n) == [NoBody EXCEPT !.kind = "bytes", !.n = n]
-StreamBody(n, d, st) == [NoBody EXCEPT !.kind = "stream", !.n = n, !.declared = d, !.step = st]
+StreamBody(n, d, st, rd) == [NoBody EXCEPT !.kind = "stream", !.n = n, !.declared = d, !.step = st, !.rd = rd]
 FormBody(kvs) == [NoBody EXCEPT !.kind = "form", !.kvs = kvs]
-MultipartBody(kvs, files) == [NoBody EXCEPT !.kind = "multipart", !.kvs = kvs, !.files = files]
+MultipartBody(kvs, files, rd) == [NoBody EXCEPT !.kind = "multipart", !.kvs = kvs, !.files = files, !.rd = rd]
 
 Sizes == {0, 1, 17} \cup BigSizes
 StepFor(n) == IF n <= 17 THEN 7 ELSE IF n % 2 = 1 THEN 1000 ELSE 0
+\* every size gets two reader behaviours per declaration (known / unknown length), rotating through RdModes so that
+\* every behaviour meets small and boundary sizes in both declarations
+SizeSeq == SetToSeq(Sizes)
+RdAt(j) == RdModes[(j % Len(RdModes)) + 1]
 
 Forms == << <<KV("a", "1")>>,
             <<KV("a", "1"), KV("b c", "x&y=z"), KV("a", "2")>>,
             <<KV("k", "v%20+w"), KV("empty", "")>> >>
-Multiparts == <<
-    MultipartBody(<<KV("f1", "val 1")>>, << >>),
-    MultipartBody(<< >>, <<FilePart("up", "a.txt", "", 300, "reader")>>),
-    MultipartBody(<<KV("f1", "v1"), KV("f1", "v2"), KV("f2", "x")>>,
-                  <<FilePart("up", "a.txt", "", 4097, "reader"), FilePart("doc", "b.bin", "application/x-thing", 10, "field"),
-                    FilePart("meta", "", "application/json", 12, "field"), FilePart("none", "e.txt", "", 0, "reader")>>) >>
+Multiparts == <<MultipartBody(<<KV("f1", "val 1")>>, << >>, "full")>>
+    \o [j \in 1 .. Len(RdModes) |-> MultipartBody(<< >>, <<FilePart("up", "a.txt", "", 300, "reader")>>, RdModes[j])]
+    \o [j \in 1 .. Len(RdModes) |->
+          MultipartBody(<<KV("f1", "v1"), KV("f1", "v2"), KV("f2", "x")>>,
+                        <<FilePart("up", "a.txt", "", 4097, "reader"), FilePart("doc", "b.bin", "application/x-thing", 10, "field"),
+                          FilePart("meta", "", "application/json", 12, "field"), FilePart("none", "e.txt", "", 0, "reader")>>, RdModes[j])]
 
 BodyShapes == SetToSeq({NoBody}
                        \cup {BytesBody(n) : n \in Sizes}
-                       \cup {StreamBody(n, n, StepFor(n)) : n \in Sizes}
-                       \cup {StreamBody(n, -1, StepFor(n)) : n \in Sizes})
+                       \cup UNION {{StreamBody(SizeSeq[j], SizeSeq[j], StepFor(SizeSeq[j]), RdAt(j)),
+                                    StreamBody(SizeSeq[j], SizeSeq[j], 0, RdAt(j + 3)),
+                                    StreamBody(SizeSeq[j], -1, StepFor(SizeSeq[j]), RdAt(j + 1)),
+                                    StreamBody(SizeSeq[j], -1, 0, RdAt(j + 4))} : j \in 1 .. Len(SizeSeq)})
               \o [j \in 1 .. Len(Forms) |-> FormBody(Forms[j])]
               \o Multiparts
 
@@ -112,7 +125,7 @@ ProgsOf(c) == [j \in 1 .. Len(ProgIdx) |-> ProgOf(ProgIdx[j][1], ProgIdx[j][2], 
 Simple(method, b) == LET base == [method |-> method, host |-> "example.com", userinfo |-> "", path |-> "/p", query |-> "x=1", frag |-> "",
                                   url |-> "", hdrs |-> <<H("X-A", "v1")>>, body |-> b, opts |-> [close |-> FALSE, hostHdr |-> ""]]
                      IN [base EXCEPT !.url = UrlOf(base)]
-SimpleProgs == <<Simple("GET", NoBody), Simple("POST", BytesBody(5)), Simple("PUT", StreamBody(9, -1, 4)), Simple("GET", NoBody)>>
+SimpleProgs == <<Simple("GET", NoBody), Simple("POST", BytesBody(5)), Simple("PUT", StreamBody(9, -1, 4, "full")), Simple("GET", NoBody)>>
 HeadProg == Simple("HEAD", NoBody)
 
 -----------------------------------------------------------------------------
@@ -236,6 +249,27 @@ CasesB ==
            xs |-> [x \in 1 .. len |->
                      LET s == Scripts[((j + (x - 1) * (1 + (q % 5)) - 1) % NS) + 1] IN Exchange(ProgFor(s, q + x), s, x)]]]
 
+\* ---- set L: a MaxResponseBodySize that is not a power of two; a legal response just under (or exactly at) it, then,
+\* into the same Response object and on the same connection, a response over it, then a probe.  (A body buffer the first
+\* response left behind has spare capacity up to the next power of two: the limit must hold all the same.)
+LScript(fr, n, cs) == [ProbeScript EXCEPT !.framing = fr, !.bodyLen = n, !.chunks = cs]
+CasesL ==
+    LET idx == SetToSeq({<<m, f, o, st>> : m \in {1000, 3000, 5000}, f \in 1 .. 3, o \in 1 .. 5, st \in BOOLEAN}) IN
+    [q \in 1 .. Len(idx) |->
+       LET m == idx[q][1]
+           first == CASE idx[q][2] = 1 -> LScript("cl", m - 100, << >>)
+                      [] idx[q][2] = 2 -> LScript("chunked", m - 100, <<m - 100>>)
+                      [] idx[q][2] = 3 -> LScript("cl", m, << >>)
+           over  == CASE idx[q][3] = 1 -> LScript("chunked", m + 10, <<m + 10>>)
+                      [] idx[q][3] = 2 -> LScript("chunked", m + 10, <<m - 100, 110>>)
+                      [] idx[q][3] = 3 -> LScript("chunked", m + 10, <<255, m - 245>>)
+                      [] idx[q][3] = 4 -> LScript("cl", m + 10, << >>)
+                      [] idx[q][3] = 5 -> LScript("chunked", m + 1, Ones(16) \o <<m - 15>>)
+       IN [tag |-> "L", cutX |-> 0,
+           cfg |-> [stream |-> idx[q][4], maxResp |-> m, noNormHdr |-> FALSE, noNormPath |-> FALSE, proxy |-> FALSE,
+                    readSize |-> ReadSizes[(q % 3) + 1], reuseResp |-> TRUE],
+           xs |-> <<Exchange(SimpleProgs[1], first, 1), Exchange(SimpleProgs[2], over, 2), Exchange(SimpleProgs[1], ProbeScript, 3)>>]]
+
 \* ---- mode "cuts": small script, then a probe on the (possibly) reused connection
 CutStarts == {j \in 1 .. NS : j % CutStride = 0}
 CasesC ==
@@ -254,7 +288,7 @@ Flatten(ss) == IF ss = << >> THEN << >> ELSE Head(ss) \o Flatten(Tail(ss))
 KCfg(st, px) == [stream |-> st, maxResp |-> 0, noNormHdr |-> FALSE, noNormPath |-> FALSE, proxy |-> px, readSize |-> 0, reuseResp |-> TRUE]
 CloseScript(token) == [ProbeScript EXCEPT !.bodyLen = 17, !.connClose = token]
 FragProg == LET base == [SimpleProgs[1] EXCEPT !.frag = "frag"] IN [base EXCEPT !.url = UrlOf(base)]
-QuoteProg == Simple("POST", MultipartBody(<<KV("a\"b", "q")>>, << >>))
+QuoteProg == Simple("POST", MultipartBody(<<KV("a\"b", "q")>>, << >>, "full"))
 NoPathFragProg == LET base == [SimpleProgs[1] EXCEPT !.path = "", !.query = "", !.frag = "frag"] IN [base EXCEPT !.url = UrlOf(base)]
 NoPathSlashQueryProg == LET base == [SimpleProgs[1] EXCEPT !.path = "", !.query = "x=a/b"] IN [base EXCEPT !.url = UrlOf(base)]
 CasesK ==
@@ -273,7 +307,7 @@ CasesK ==
            xs |-> <<Exchange([NoPathSlashQueryProg EXCEPT !.query = "x=1", !.url = "http://example.com?x=1"], ProbeScript, 1)>>],
           [tag |-> "K-authority-query-slash", cutX |-> 0, cfg |-> KCfg(st, FALSE), xs |-> <<Exchange(NoPathSlashQueryProg, ProbeScript, 1)>>] >>])
 
-AllCases == IF Mode \in {"cuts", "cutsbig"} THEN CasesC ELSE Flatten([c \in 1 .. 8 |-> CasesA(c - 1)]) \o CasesB \o CasesK
+AllCases == IF Mode \in {"cuts", "cutsbig"} THEN CasesC ELSE Flatten([c \in 1 .. 8 |-> CasesA(c - 1)]) \o CasesB \o CasesL \o CasesK
 \* One Response object serves a whole sequence, handed to Do as it is -- except that after a HEAD exchange it is Reset()
 \* first (known finding C11-skipbody-sticky: the SkipBody flag the client sets for HEAD survives into the next Do; its
 \* minimal case K-head-then-get keeps the object as it is).
